@@ -17,12 +17,12 @@ import (
 type Node struct {
 	mu     sync.Mutex
 	script string
-	cmd   *exec.Cmd
-	in    io.WriteCloser
-	out   *bufio.Reader
-	calls int
-	bin   string
-	args  []string
+	cmd    *exec.Cmd
+	in     io.WriteCloser
+	out    *bufio.Reader
+	calls  int
+	bin    string
+	args   []string
 }
 
 func nodeBin(version string) string {
